@@ -108,6 +108,26 @@ class SubsetGen:
         return self.r.choice([self.num, self.boolean, self.num, self.seq])(d)
 
 
+def python_names(table, base=None):
+    """The allow-listed NAMES bound to what Python itself binds them to (the builtin, or the math module's object - as
+    the property's allow-list spells them, coq/C01/Spec.v), so that the reference does not inherit a wrapper the engine
+    may have put in its table.  Names outside that list, and entries a caller has replaced on purpose (not identical to
+    `base`), keep the table's own object."""
+    import builtins
+    import math
+    py = {}
+    for k in ("abs", "round", "min", "max", "sum", "len", "int", "float", "bool"):
+        py[k] = getattr(builtins, k)
+    for k in ("sqrt", "sin", "cos", "tan", "asin", "acos", "atan", "atan2", "sinh", "cosh", "tanh", "log", "log10", "log2",
+              "exp", "pow", "ceil", "floor", "trunc", "factorial", "gcd", "degrees", "radians", "pi", "e", "tau", "inf"):
+        py[k] = getattr(math, k)
+    out = {}
+    for k, v in table.items():
+        replaced_on_purpose = base is not None and not (k in base and v is base[k])
+        out[k] = py[k] if (k in py and not replaced_on_purpose) else v
+    return out
+
+
 def py_equal(a, b):
     """'equals the value Python assigns': the same value of the same type, told apart the way a caller can - by type
     and printed form (so 1 / 1.0 / True differ, 0.0 / -0.0 differ, nan equals nan), containers element-wise."""
@@ -223,7 +243,7 @@ class C02(C01):
             trace["ref"] = ("unparsed",)
             return obs, trace
         pw = case["pathway"] or m._detect_pathway(expr).value
-        names = dict(type(m).SAFE_FUNCTIONS)
+        names = python_names(dict(type(m).SAFE_FUNCTIONS))
         if pw == "logic":
             names.update({"true": True, "false": False})
         try:
@@ -431,6 +451,102 @@ class C02(C01):
                         case={"expr": e, "pathway": None, "sibling_probe": True, "constructor_parameters": params}))
                     break
         self.extra_cov["sibling_engines_built"] = built
+        # -- every allow-listed function on arguments of every literal type (one and two positional arguments, the keyword
+        #    arguments the builtins know): whatever Python makes of the call (value or exception) the engine must agree with
+        from operon_ai.organelles.mitochondria import MetabolicPathway
+        import contextlib
+        import io
+        table = python_names(dict(Mitochondria.SAFE_FUNCTIONS))
+        fnames = sorted(k for k, v in table.items() if callable(v))
+        pool = ["0", "1", "-2", "2.5", "True", "''", "'ab'", "b'a'", "[]", "[1, 2]", "['ab', 'cd']", "(1, 2)", "[[1], [2]]",
+                "[b'a']", "[1.5, 2.5]", "None"]
+        kws = ["start=''", "start='x'", "start=[]", "start=1.5", "key=abs", "default=0", "ndigits=1", "base=2", "reverse=True"]
+        exprs = []
+        for f in fnames:
+            for a1 in pool:
+                exprs.append(f"{f}({a1})")
+                for a2 in pool:
+                    exprs.append(f"{f}({a1}, {a2})")
+                for kw in kws:
+                    exprs.append(f"{f}({a1}, {kw})")
+        if self.tier == "quick":
+            exprs = exprs[::3] + [e for e in exprs if e.startswith(("sum(", "max(", "min(", "round(", "int(", "sorted("))]
+        n_t = 0
+        eng = Mitochondria(silent=True)
+        for e in exprs:
+            try:
+                want = ("ok", eval(e, {"__builtins__": {}}, dict(table)))
+            except BaseException as ex:  # noqa
+                want = ("raises", type(ex).__name__)
+            try:
+                with contextlib.redirect_stdout(io.StringIO()):
+                    r = eng.metabolize(e, MetabolicPathway.GLYCOLYSIS)
+            except BaseException as ex:  # noqa
+                self.violations.append(Violation("C02/raises", f"metabolize({e!r}) raised {type(ex).__name__}",
+                                                 case={"expr": e, "pathway": "math", "typed_call_probe": True}))
+                break
+            n_t += 1
+            if eng._ros_accumulated > 0.5:
+                eng = Mitochondria(silent=True)
+            if r.success and want[0] == "raises":
+                self.violations.append(Violation(
+                    "C02/success-where-python-raises", f"engine returned {r.atp.value!r} for {e!r} but Python raises {want[1]}",
+                    case={"expr": e, "pathway": "math", "typed_call_probe": True}))
+                break
+            if r.success and not py_equal(r.atp.value, want[1]):
+                self.violations.append(Violation(
+                    "C02/value-differs", f"engine returned {r.atp.value!r} for {e!r}, Python gives {want[1]!r}",
+                    case={"expr": e, "pathway": "math", "typed_call_probe": True}))
+                break
+        self.extra_cov["typed_call_probes"] = n_t
+        # -- engines with their OWN allow-list (a subclass, or an instance, that redefines / removes / adds constants and
+        #    functions): 'the same allow-listed names' are that engine's
+        base = dict(Mitochondria.SAFE_FUNCTIONS)
+        variants = []
+        t1 = dict(base, e=1.602176634e-19, pi=3.14, c=299792458, sqrt=lambda x: -1)
+        t2 = {k: v for k, v in base.items() if k not in ("inf", "tau", "abs")}
+        t3 = dict(base, tau=6.28, inf=10 ** 6, golden=1.618)
+        for label, tbl in (("redefines e, pi, sqrt; adds c", t1), ("removes inf, tau, abs", t2), ("redefines tau, inf; adds golden", t3)):
+            Sub = type("CustomEngine", (Mitochondria,), {"SAFE_FUNCTIONS": dict(tbl)})
+            variants.append((f"subclass that {label}", Sub(silent=True), tbl))
+            inst = Mitochondria(silent=True)
+            inst.SAFE_FUNCTIONS = dict(tbl)
+            variants.append((f"instance whose table {label}", inst, tbl))
+        probe = ["2 * e", "pi", "tau / 2", "inf", "max([1, inf])", "c + 1", "golden", "sqrt(4)", "abs(-1)", "e ** 2 if pi > 3.141 else 0",
+                 "[pi, e, tau]", "min(inf, 5)", "round(pi, 1)", "pi(1)", "e < 1", "not inf"]
+        n_c = 0
+        for label, eng, tbl in variants:
+            for e in probe:
+                for pw in (None, MetabolicPathway.GLYCOLYSIS):
+                    try:
+                        want = ("ok", eval(e, {"__builtins__": {}}, python_names(tbl, base)))
+                    except BaseException as ex:  # noqa
+                        want = ("raises", type(ex).__name__)
+                    try:
+                        with contextlib.redirect_stdout(io.StringIO()):
+                            r = eng.metabolize(e, pw) if pw else eng.metabolize(e)
+                    except BaseException as ex:  # noqa
+                        self.violations.append(Violation("C02/raises", f"{label}: metabolize({e!r}) raised {type(ex).__name__}",
+                                                         case={"expr": e, "pathway": None, "custom_table_probe": label}))
+                        continue
+                    n_c += 1
+                    eng._ros_accumulated = 0.0
+                    got = r.atp.value if r.success else None
+                    logic = pw is None and r.success and type(got) is bool and want[0] == "ok" and type(want[1]) is not bool
+                    if r.success and want[0] == "raises":
+                        self.violations.append(Violation(
+                            "C02/success-where-python-raises", f"an engine that is a {label}: {e!r} gives {got!r}, but Python with "
+                            f"that engine's allow-list raises {want[1]}", case={"expr": e, "pathway": None, "custom_table_probe": label}))
+                        break
+                    if r.success and not logic and not py_equal(got, want[1]):
+                        self.violations.append(Violation(
+                            "C02/value-differs", f"an engine that is a {label}: {e!r} gives {got!r}, Python with that engine's "
+                            f"allow-list gives {want[1]!r}", case={"expr": e, "pathway": None, "custom_table_probe": label}))
+                        break
+                else:
+                    continue
+                break
+        self.extra_cov["custom_allow_list_probes"] = n_c
 
     def classify(self, case, obs, trace):
         ks = C01.classify(self, case, obs, trace)
